@@ -140,6 +140,16 @@ def body_for(beh: Dict[str, Any], req: Optional[Dict[str, Any]]) -> Tuple[bytes,
         elif kind == "error_plain_object":
             e = {"error": "invalid_token", "error_description": TEXT}
         return json.dumps(e, ensure_ascii=False).encode("utf-8"), []
+    elif kind == "sse_note_then_truncated":
+        # a notification, then the response cut off in the middle (connection dropped): the request still needs its
+        # terminal message
+        raw = ("event: message\ndata: " + json.dumps(note1) + "\n\nevent: message\ndata: " + json.dumps(resp)[:25]).encode("utf-8")
+        return raw, [note1]
+    elif kind == "json_batch_note_then_junk":
+        return json.dumps([note1, {"foo": "not a message"}]).encode("utf-8"), [note1]
+    elif kind == "sse_batch_in_one_event":
+        # one SSE event whose data is a JSON-RPC batch array
+        return ("event: message\ndata: " + json.dumps([note1, resp], ensure_ascii=False) + "\n\n").encode("utf-8"), [note1, resp]
     elif kind == "notes_then_response_list":
         msgs = [note1, {"jsonrpc": "2.0", "id": rid, "result": []}]
     elif kind == "batch":
@@ -221,6 +231,9 @@ def single_behaviours() -> List[Dict[str, Any]]:
         for body in ("error_nullid", "error_foreignid", "error_noid", "error_plain_object"):
             for ct in ("json", "other", None):
                 out.append({"status": status, "ctype": ct, "body": body})
+    out.append({"status": 200, "ctype": "sse", "body": "sse_note_then_truncated"})
+    out.append({"status": 200, "ctype": "json", "body": "json_batch_note_then_junk"})
+    out.append({"status": 200, "ctype": "sse", "body": "sse_batch_in_one_event"})
     for body in ("response_list", "response_str", "response_zero", "response_emptyobj", "notes_then_response_list", "response_null",
                  "response_false"):
         out.append({"status": 200, "ctype": "json", "body": body})
@@ -251,6 +264,7 @@ REQ_IDS = [1, 0, "abc", "123", 2**53 + 1, "u-é", "", -1]
 
 
 def gen_cases(ctx):
+    ok_first = {"status": 200, "ctype": "json", "body": "response"}
     rng = ctx.sub_rng("c11")
     singles = single_behaviours()
     ctx.extra["single_behaviours"] = len(singles)
@@ -262,6 +276,11 @@ def gen_cases(ctx):
     for b in NOTE_BEHAVIOURS:
         yield [{"req": "notification", "beh": b}]
         yield [{"req": "notification", "beh": b}, {"req": "request", "id": 5, "beh": {"status": 200, "ctype": "json", "body": "response"}}]
+    # the client POSTs a *response* (its answer to a server request): whatever the server says to that, nothing carrying
+    # that id may appear on the read stream (it could complete an unrelated request of the client's with the same id)
+    for b in NOTE_BEHAVIOURS:
+        for rid in (7, "srv-1", 0):
+            yield [{"req": "response", "id": rid, "beh": b}, {"req": "request", "id": rid if rid != 0 else 1, "beh": ok_first}]
     # survival: every behaviour followed by a healthy request
     ok = {"status": 200, "ctype": "json", "body": "response"}
     for b in singles:
@@ -332,6 +351,9 @@ def reference(step: Dict[str, Any], req_wire: Dict[str, Any]) -> Dict[str, Any]:
                                                "result": {"echo": req_wire.get("method"), "text": TEXT, "n": None}}]]}
     raw, msgs = body_for(beh, req_wire)
     ct = beh.get("ctype")
+    if beh.get("body") in ("sse_note_then_truncated", "json_batch_note_then_junk"):
+        # the well-formed part is delivered, and since no answer came the request still ends in one terminal message
+        return {"mode": "partial_then_terminal", "alts": [msgs]}
     if ct in ("json", "json_charset"):
         return {"mode": "messages", "alts": [msgs]} if msgs else {"mode": "terminal"}
     if ct in ("sse", "sse_charset"):
@@ -344,7 +366,8 @@ def reference(step: Dict[str, Any], req_wire: Dict[str, Any]) -> Dict[str, Any]:
             if ev["event"] != "message":
                 continue
             try:
-                strict.append(json.loads(ev["data"]))
+                v_ = json.loads(ev["data"])
+                strict.extend(v_ if isinstance(v_, list) else [v_])   # a batch array in one event = its members
             except Exception:
                 pass
         lenient = []
@@ -352,7 +375,8 @@ def reference(step: Dict[str, Any], req_wire: Dict[str, Any]) -> Dict[str, Any]:
             if ev["event"] != "message":
                 continue
             try:
-                lenient.append(json.loads(ev["data"]))
+                v_ = json.loads(ev["data"])
+                lenient.extend(v_ if isinstance(v_, list) else [v_])
             except Exception:
                 pass
         alts = [a for a in (strict, lenient) if a]
@@ -457,6 +481,11 @@ def exec_case(ctx, seq: List[Dict[str, Any]]) -> None:
                         msg = JSONRPCRequest(id=step["id"], method="tools/call", params={"name": "t", "arguments": {"x": TEXT, "n": None}})
                     elif step["req"] == "request":
                         msg = create_request("tools/call", {"name": "t", "arguments": {"x": TEXT, "n": None}}, id=step["id"])
+                    elif step["req"] == "response":
+                        # the client's answer to a request the server made earlier
+                        from chuk_mcp.protocol.messages.json_rpc_message import create_response, create_error_response
+                        msg = (create_response(step["id"], {"roots": []}) if k % 2 == 0
+                               else create_error_response(step["id"], -32601, "not supported"))
                     elif k % 2:
                         msg = JSONRPCNotification(method="notifications/roots/list_changed", params={})
                     else:
@@ -480,6 +509,7 @@ def exec_case(ctx, seq: List[Dict[str, Any]]) -> None:
                         per_step.append(list(got[before:]))
                 dt.cancel()
             state["twin_got"] = twin_got
+            state["client_timeouts"] = [(c.timeout.connect, c.timeout.read, c.timeout.write, c.timeout.pool) for c in http.clients]
             return per_step, wires, list(http.requests)
 
     try:
@@ -505,6 +535,14 @@ def exec_case(ctx, seq: List[Dict[str, Any]]) -> None:
         if [g[:2] for g in tg] != want or len(tposts) != len(seq):
             ctx.violation("second_transport_disturbed", f"second transport sent {len(tposts)} POSTs for {len(seq)} requests "
                           f"and read {[g[:2] for g in tg]!r}", case)
+    # every HTTP client the transport builds must bound each phase of a request by the configured timeout (5 s here):
+    # with an unbounded read phase a server that accepts the request and then goes silent would never be given up on
+    for tmo in state.get("client_timeouts", []):
+        ctx.count("http_clients_inspected")
+        if any(t is None or t > 5.0 + 1e-9 for t in tmo):
+            ctx.violation("request_phase_without_deadline", f"an httpx client was built with timeouts (connect, read, write, pool) = "
+                          f"{tmo}; the configured request timeout is 5.0", case)
+            break
     posts = [r for r in requests if r["method"] == "POST" and "step" in r]
     ctx.count("posts", len(posts))
     shape = []
@@ -535,8 +573,8 @@ def exec_case(ctx, seq: List[Dict[str, Any]]) -> None:
         if seq[0].get("burst"):
             got_n = [g for g in got_n if g[1] == tagged(wires[k].get("id"))]
         with_id = [g for g in got_n if g[1] != ("null",)]
-        if step["req"] == "notification":
-            ref = reference(step, req_wire)
+        if step["req"] in ("notification", "response"):
+            ref = reference(step, req_wire) if step["req"] == "notification" else {"alts": []}
             allowed = [norm_any(m) for alt in ref.get("alts", []) for m in alt]
             stray = [g for g in with_id if g not in allowed]
             if stray:
@@ -577,6 +615,15 @@ def exec_case(ctx, seq: List[Dict[str, Any]]) -> None:
                 mech = "extra_message_with_terminal"
             ctx.violation(mech, f"request #{k} ({beh}): expected exactly one terminal message with id {rid!r}, read stream "
                           f"got {[g[:3] for g in got_n]!r}", case)
+        elif ref["mode"] == "partial_then_terminal":
+            delivered = [g for g in got_n if g[1] == ("null",)]
+            exp_notes = [norm_any(m) for m in ref["alts"][0]]
+            if len(terminal) != 1 or len(with_id) != 1:
+                ctx.violation("no_terminal_message" if not terminal else "duplicate_terminal_message",
+                              f"request #{k} ({beh}): the body carried a notification and then broke off; the request must still "
+                              f"get exactly one terminal message with id {rid!r}; read stream got {[g[:3] for g in got_n]!r}", case)
+            if any(d not in exp_notes for d in delivered):
+                ctx.violation("message_invented_or_duplicated", f"request #{k} ({beh}): unexpected {delivered!r}", case)
         elif ref["mode"] == "either" and not (ok_msgs or ok_term):
             ctx.violation("neither_messages_nor_terminal", f"request #{k} ({beh}): got {[g[:3] for g in got_n]!r}", case)
         shape.append(f"{ref['mode'][0]}{len(got_n)}")
